@@ -424,7 +424,6 @@ C20_SPECIAL = [
     ("where_self_ops", "Add, SubAssign, Neg", "pub struct X<T> where Self: ::core::marker::Sized { pub a: T }"),
     ("param_H_hash", "Hash, PartialEq", "pub struct X<H>(pub H);"),
     ("param_T_eq", "Eq, PartialEq", "pub struct X<T>(pub T);"),
-    ("lifetime_a_ops", "Add, Sub, AddAssign, Neg, Not", "pub struct X<'a, T>(pub T, pub ::core::marker::PhantomData<&'a ()>) where ::core::marker::PhantomData<&'a ()>: ::core::marker::Copy;"),
     ("lifetime_a_cmp", "Clone, Debug, PartialEq, Eq, PartialOrd, Ord, Hash", "pub struct X<'a, T>(pub &'a T);"),
     ("lifetime_a_add_ref", "Add", "pub struct X<'a>(pub W<'a>);\n#[derive(Clone, Copy)] pub struct W<'a>(pub &'a u8);\nimpl<'a> ::core::ops::Add<W<'a>> for W<'a> { type Output = W<'a>; fn add(self, _: W<'a>) -> W<'a> { self } }\nimpl<'a, 'b> ::core::ops::Add<&'b W<'a>> for W<'a> { type Output = W<'a>; fn add(self, _: &'b W<'a>) -> W<'a> { self } }\nimpl<'a, 'b> ::core::ops::Add<W<'a>> for &'b W<'a> { type Output = W<'a>; fn add(self, _: W<'a>) -> W<'a> { *self } }\nimpl<'a, 'b, 'c> ::core::ops::Add<&'c W<'a>> for &'b W<'a> { type Output = W<'a>; fn add(self, _: &'c W<'a>) -> W<'a> { *self } }"),
     ("const_param_default", "Clone, Debug, Default, PartialEq, Eq, Hash", "pub struct X<T = u8, const N: usize = 2> { pub a: [T; N], pub b: [u8; N] }"),
@@ -566,8 +565,16 @@ def c20(tier):
         ds = [d for d in diags if d.get("level") in ("error", "warning") and "aborting due to" not in d.get("message", "")
               and "warning emitted" not in d.get("message", "") and "warnings emitted" not in d.get("message", "")]
         return ok, dx.diag_summary(ds, level=("error", "warning"))[:4], src
+    # warnings that the same field types draw from the STANDARD derive as well are not derive_ex's doing:
+    # probe std with the field types of the pool and collect the lint names it triggers
+    probe = ("#![deny(warnings)]\n#![allow(dead_code)]\n#[derive(Clone, Debug, PartialEq, PartialOrd, Hash)] pub struct P<T>(pub fn(T) -> u8, pub *const T, pub fn(T) -> T);\n"
+             "#[derive(Clone, Copy, Debug, PartialEq, Eq, PartialOrd, Ord, Hash)] pub struct Q(pub fn(u8) -> u8);\n")
+    okp, dp = dx.check_only("probe", probe, wd)
+    std_lints = sorted(set((d.get("code") or {}).get("code") for d in dp if d.get("level") == "warning" and d.get("code")))
+    ck.notes["lints_std_draws_for_the_same_field_types"] = std_lints
     todo = [(i, p) for i, p in enumerate(progs) if resps[i].get("class") == "items"]
     res = dict(zip([i for i, _ in todo], dx.pmap(comp, todo)))
+    res = {i: (ok, [d for d in ds if d.get("code") not in std_lints], src) for i, (ok, ds, src) in res.items()}
     import shutil
     shutil.rmtree(wd, ignore_errors=True)
     events, idx = [], []
